@@ -50,6 +50,7 @@ type echoLog struct {
 }
 
 type echoUpstream struct {
+	sick        bool          // answers 500 to everything
 	healthDelay time.Duration // how long a health check takes (set before use)
 	name   string
 	ln     net.Listener
@@ -77,10 +78,24 @@ func newEchoUpstream(name string) *echoUpstream {
 	return u
 }
 
+func (u *echoUpstream) setSick(v bool) {
+	u.mu.Lock()
+	u.sick = v
+	u.mu.Unlock()
+}
+
 func (u *echoUpstream) URL() string { return "http://" + u.ln.Addr().String() }
 
 // query parameters understood: size, type, cc (max-age seconds, 0 none), v (version salt), status
 func (u *echoUpstream) handle(w http.ResponseWriter, r *http.Request) {
+	u.mu.Lock()
+	sick := u.sick
+	u.mu.Unlock()
+	if sick {
+		// the listener stays open, every request (health checks included) fails
+		w.WriteHeader(500)
+		return
+	}
 	if r.URL.Path == "/health" {
 		if u.healthDelay > 0 {
 			time.Sleep(u.healthDelay)
@@ -253,6 +268,15 @@ func freePorts(n int) []int {
 	return ports
 }
 
+var extraPikeArgs []string
+
+// startPikeArgs: startPike with further command line arguments
+func startPikeArgs(dir string, cfg []byte, adminPort int, args []string) (*pikeProc, error) {
+	extraPikeArgs = args
+	defer func() { extraPikeArgs = nil }()
+	return startPike(dir, cfg, adminPort)
+}
+
 func startPike(dir string, cfg []byte, adminPort int, env ...string) (*pikeProc, error) {
 	p := &pikeProc{dir: dir, cfgFile: filepath.Join(dir, "pike.yml"), exited: make(chan struct{})}
 	if _, err := os.Stat(p.cfgFile); err != nil || cfg != nil {
@@ -261,7 +285,7 @@ func startPike(dir string, cfg []byte, adminPort int, env ...string) (*pikeProc,
 		}
 	}
 	p.adminAdr = fmt.Sprintf("127.0.0.1:%d", adminPort)
-	p.cmd = exec.Command(pikeBin(), "--config", p.cfgFile, "--admin", p.adminAdr)
+	p.cmd = exec.Command(pikeBin(), append([]string{"--config", p.cfgFile, "--admin", p.adminAdr}, extraPikeArgs...)...)
 	p.cmd.Dir = dir
 	p.cmd.Env = append(os.Environ(), append([]string{"GO_ENV=dev"}, env...)...)
 	p.cmd.SysProcAttr = &syscall.SysProcAttr{Setpgid: true}
